@@ -80,6 +80,18 @@ CHECKS = {
         design_ref='§7 C06',
         note=NOTE_COMMON + '"never hangs" is a wall-clock bound; finding C06-F1 (exponential backtracking for nesting depth >= 7) is recorded in known_findings.txt.',
         technique='TLA+ state machine + grammar model (TLC), descriptor/token enumeration replayed through the public file path'),
+    'C01': dict(
+        category='model_checking',
+        text=('The ideal operator grammar (XlFormula: precedence-climbing parser + exact rational / text / boolean evaluation) is '
+              'checked by TLC for self-consistency (Grouping, UnaryScope, BlankIsZero over all operator pairs and valuations) and '
+              'then used as generator and oracle: every chain of k binary operators out of 11 with operand decorations and one '
+              'bracket pair is a TLC state carrying its value under 5 valuations and the Guard set of the open findings. Binding: '
+              'every chain is translated and evaluated by the real pipeline with operands as literals, workbook cells and overrides '
+              'and compared exactly (rationals, texts, booleans); numeric literal texts are compared in exact decimal mode; random '
+              'deeper formulas are re-parsed and re-evaluated by TLC from recorded events (Trace_C01).'),
+        design_ref='§7 C01',
+        note=NOTE_COMMON + 'Findings C01-F1/F2 (right-recursive grouping of comparisons and &) are open with syntactic guards computed by the spec; within a guard the deviant outcome is not modelled (precision any).',
+        technique='TLA+ executable grammar/evaluator as oracle, TLC-enumerated chains replayed, trace validation'),
 }
 
 NOT_APPLICABLE = {}
